@@ -115,9 +115,15 @@ func goCtx() pongo2.Context {
 		"fmap": func() map[string]int { return map[string]int{"z": 26} },
 		"val":  pongo2.AsValue(map[string]any{"inner": "viaValue"}),
 		// maps whose key type is not plain string
-		"am": map[any]any{"a": "any-a", "k": 7},
-		"cm": map[colorT]string{"a": "color-a", "red": "R"},
-		"nm": namedMapT{"a": 11, "zz9": 12},
+		"am":   map[any]any{"a": "any-a", "k": 7},
+		"cm":   map[colorT]string{"a": "color-a", "red": "R"},
+		"nm":   namedMapT{"a": 11, "zz9": 12},
+		"qm":   queryT{"a": "qa", "k": "qk"},
+		"cel":  celsiusT(100),
+		"nms":  namesT{"n0", "n1"},
+		"usr":  userT{baseT{7, "root"}, "u-name"},
+		"usrp": &userT{baseT{8, "admin"}, "up-name"},
+		"usrq": userPT{&baseT{9, "ptr"}, "uq-name"},
 		// implicit execution context in front of 3, 5 and 7 written arguments
 		"fc3": func(ctx *pongo2.ExecutionContext, a int, b string, c int) string {
 			return fmt.Sprintf("%d/%s/%d", a, b, c)
@@ -134,6 +140,35 @@ func goCtx() pongo2.Context {
 
 type colorT string
 type namedMapT map[string]int
+
+// named non-struct types that carry methods (like url.Values, time.Duration, sort.StringSlice)
+type queryT map[string]string
+
+func (q queryT) Fetch(k string) string { return "q:" + q[k] }
+func (q queryT) Size() int             { return len(q) }
+
+type celsiusT int
+
+func (c celsiusT) Fahrenheit() int     { return int(c)*9/5 + 32 }
+func (c celsiusT) Plus(d int) celsiusT { return c + celsiusT(d) }
+
+type namesT []string
+
+func (n namesT) Joined(sep string) string { return strings.Join(n, sep) }
+
+// fields promoted through an embedded struct of an unexported type (by value and by pointer)
+type baseT struct {
+	ID int
+	By string
+}
+type userT struct {
+	baseT
+	Name string
+}
+type userPT struct {
+	*baseT
+	Name string
+}
 
 // ---------- model side ----------
 
@@ -286,6 +321,33 @@ func modelCtx() map[string]*Node {
 		"am":   nMap("a", nStr("any-a"), "k", nInt(7)),
 		"cm":   {K: "opaque"}, // a named string type as key: what a name step finds is left open (never a panic)
 		"nm":   nMap("a", nInt(11), "zz9", nInt(12)),
+		"qm": func() *Node {
+			n := nMap("a", nStr("qa"), "k", nStr("qk"))
+			n.Methods = map[string]*Func{
+				"Fetch": {Params: []string{"str"}, Call: func(a []*Node) (*Node, bool) {
+					v := map[string]string{"a": "qa", "k": "qk"}[a[0].P]
+					return nStr("q:" + v), false
+				}},
+				"Size": {Call: func(a []*Node) (*Node, bool) { return nInt(2), false }},
+			}
+			return n
+		}(),
+		"cel": func() *Node {
+			n := nInt(100)
+			n.Methods = map[string]*Func{
+				"Fahrenheit": {Call: func(a []*Node) (*Node, bool) { return nInt(212), false }},
+				"Plus":       {Params: []string{"int"}, Call: func(a []*Node) (*Node, bool) { return nInt(100 + argInt(a[0])), false }},
+			}
+			return n
+		}(),
+		"nms": func() *Node {
+			n := nSeq(nStr("n0"), nStr("n1"))
+			n.Methods = map[string]*Func{"Joined": {Params: []string{"str"}, Call: func(a []*Node) (*Node, bool) { return nStr("n0" + a[0].P + "n1"), false }}}
+			return n
+		}(),
+		"usr":  {K: "struct", Map: map[string]*Node{"ID": nInt(7), "By": nStr("root"), "Name": nStr("u-name")}, Hidden: []string{"baseT"}},
+		"usrp": {K: "struct", Map: map[string]*Node{"ID": nInt(8), "By": nStr("admin"), "Name": nStr("up-name")}, Hidden: []string{"baseT"}, IsPtr: true},
+		"usrq": {K: "struct", Map: map[string]*Node{"ID": nInt(9), "By": nStr("ptr"), "Name": nStr("uq-name")}, Hidden: []string{"baseT"}},
 		"fc3":  fn([]string{"int", "str", "int"}, false, func(a []*Node) (*Node, bool) { return nStr(a[0].P + "/" + a[1].P + "/" + a[2].P), false }),
 		"fc5": fn([]string{"int", "int", "int", "int", "int"}, false, func(a []*Node) (*Node, bool) {
 			return nStr(a[0].P + a[1].P + a[2].P + a[3].P + a[4].P), false
@@ -451,8 +513,8 @@ func resolve(first string, steps []Step, ctx map[string]*Node) (*Node, string) {
 			// methods (identifier steps only)
 			if st.Kind == "name" {
 				if f, ok := cur.Methods[name]; ok {
-					if cur.K == "map" {
-						return nil, oSkip
+					if _, isKey := cur.Map[name]; cur.K == "map" && isKey {
+						return nil, oSkip // a key that equals a method name: left open
 					}
 					cur = &Node{K: "func", Fn: f}
 					continue
@@ -756,6 +818,8 @@ func stepsFor() []Step {
 		{Kind: "name", S: "Upper"}, {Kind: "name", S: "PtrOnly"}, {Kind: "name", S: "GetLeaf"}, {Kind: "name", S: "GetValue"},
 		{Kind: "name", S: "Add"}, {Kind: "name", S: "Sum"}, {Kind: "name", S: "Greet"}, {Kind: "name", S: "MayFail"}, {Kind: "name", S: "ViaValue"}, {Kind: "name", S: "WithCtx"}, {Kind: "name", S: "AnyArg"},
 		{Kind: "index", I: 0}, {Kind: "index", I: 1}, {Kind: "index", I: 2}, {Kind: "index", I: 9},
+		{Kind: "name", S: "Fetch"}, {Kind: "name", S: "Size"}, {Kind: "name", S: "Fahrenheit"}, {Kind: "name", S: "Plus"}, {Kind: "name", S: "Joined"},
+		{Kind: "name", S: "ID"}, {Kind: "name", S: "By"}, {Kind: "name", S: "baseT"},
 	}
 }
 
@@ -776,7 +840,7 @@ func callForms() []Step {
 }
 
 func run(r *eng.Runner) {
-	firsts := []string{"am", "cm", "nm", "r", "rv", "m", "im", "l", "arr", "s", "i", "nilv", "missing", "f0", "f2", "fvar", "ferr", "fval", "fctx", "fmap", "val", "stg"}
+	firsts := []string{"qm", "cel", "nms", "usr", "usrp", "usrq", "am", "cm", "nm", "r", "rv", "m", "im", "l", "arr", "s", "i", "nilv", "missing", "f0", "f2", "fvar", "ferr", "fval", "fctx", "fmap", "val", "stg"}
 	sinks := []string{"print", "length", "if"}
 	callSinks := []string{"print", "length", "if", "repeat"}
 	steps := stepsFor()
@@ -825,6 +889,9 @@ func run(r *eng.Runner) {
 	var cs []callee
 	for _, f := range []string{"f0", "f2", "fvar", "ferr", "fval", "fctx", "fc3", "fc5", "fc7", "fmap", "fstr", "i", "m", "missing"} {
 		cs = append(cs, callee{f, nil})
+	}
+	for _, mc := range [][2]string{{"qm", "Fetch"}, {"qm", "Size"}, {"cel", "Fahrenheit"}, {"cel", "Plus"}, {"nms", "Joined"}} {
+		cs = append(cs, callee{mc[0], []Step{{Kind: "name", S: mc[1]}}})
 	}
 	for _, root := range []string{"r", "rv"} {
 		for _, holder := range [][]Step{{{Kind: "name", S: "In"}}, {{Kind: "name", S: "P"}}, {{Kind: "name", S: "Iface"}}, {{Kind: "name", S: "L"}, {Kind: "index", I: 1}}, {{Kind: "name", S: "M"}, {Kind: "name", S: "k"}}, {{Kind: "name", S: "NilP"}}} {
